@@ -320,6 +320,30 @@ def run_world(scn):
             o = obj_at(root, op["obj"])
             getattr(o, op["block"]).constraint_mode(op["val"])
             cm_hist.append([op["obj"], op["block"], op["val"], inst])
+        elif k == "relist":
+            # the user empties a list of objects and fills it with new objects of the same class: references by index
+            # and foreach now denote the new elements, which start with default switches
+            lp = list(op["path"])
+            lst = obj_at(root, lp)
+            n = len(lst)
+            if n == 0:
+                continue
+            cls = type(lst[0])
+            lst.clear()
+            with common.quiet():
+                for _ in range(n):
+                    lst.append(cls())
+            lst.get_model().name_elems()
+
+            def under(p):
+                return list(p[:len(lp)]) == lp and len(p) > len(lp) and p[len(lp)] != "size"
+            for p, decl in spaths:
+                if under(p) and not decl.get("is_size"):
+                    o = obj_at(root, p[:-1])
+                    setattr(o, p[-1], S.enum_type(decl["enums"])(decl["val"]) if decl.get("enums") else decl["val"])
+            idmap.update({id(obj_at(root, p)): ".".join(p) for p, _ in opaths if under(p)})
+            rm_hist[:] = [h for h in rm_hist if not (h[2] == inst and under(h[0]))]
+            cm_hist[:] = [h for h in cm_hist if not (h[3] == inst and under(h[0]))]
         elif k == "randomize":
             target = obj_at(root, op["target"])
             before = read_values(root, spaths)
